@@ -67,7 +67,7 @@ func genFilter(t *rapid.T, mqtt bool) string {
 	n := rapid.IntRange(1, 4).Draw(t, "depth")
 	parts := make([]string, n)
 	for i := range parts {
-		parts[i] = rapid.SampledFrom([]string{"a", "b", "c", "a", "b", "+"}).Draw(t, "lv")
+		parts[i] = rapid.SampledFrom([]string{"a", "b", "c", "a", "b", "+", "a", "b", "c", "a", "b", "+", "presence", "emitter"}).Draw(t, "lv") // presence / emitter: ordinary levels named like reserved words
 	}
 	if mqtt && rapid.IntRange(0, 3).Draw(t, "hash") == 0 {
 		parts = append(parts, "#")
@@ -83,7 +83,7 @@ func genChannel(t *rapid.T) string {
 	n := rapid.IntRange(1, 5).Draw(t, "cdepth")
 	parts := make([]string, n)
 	for i := range parts {
-		parts[i] = rapid.SampledFrom([]string{"a", "b", "c"}).Draw(t, "clv")
+		parts[i] = rapid.SampledFrom([]string{"a", "b", "c", "a", "b", "c", "a", "b", "c", "presence", "emitter"}).Draw(t, "clv")
 	}
 	return strings.Join(parts, "/") + "/"
 }
